@@ -51,13 +51,16 @@ def run_property(pid, tier, seed, replay=None):
     dist = collections.Counter()
     distinct = set()
     samples = []
+    model_timeouts = 0
     if builds["harness"][0] and builds["modeldrv"][0]:
         timeout = getattr(mod, "CASE_TIMEOUT", 600)
         import lib as _lib
         _lib.ENV["IMPLDRV_CASE_SECS"] = str(getattr(mod, "CASE_SECS", 5))
         per_shard = getattr(mod, "PER_SHARD", 100)
         impl_out = run_driver(IMPLDRV, cases, timeout=timeout, per_shard=per_shard)
-        model_out = run_driver(MODELDRV, cases, timeout=max(timeout, 300), per_shard=per_shard)
+        # the list-based model can be too slow on a pathological input; a model-side timeout says nothing about the code:
+        # such a case is not compared (it is counted in the evidence) but the direct oracle still sees the implementation's output
+        model_out = run_driver(MODELDRV, cases, timeout=max(timeout, 300), per_shard=per_shard, hang_token="MODEL-TIMEOUT")
         rel_out = None
         if tier == "thorough" and getattr(mod, "RELEASE_TOO", False):
             rel_out = run_driver(IMPLDRV_REL, cases, timeout=timeout)
@@ -68,7 +71,9 @@ def run_property(pid, tier, seed, replay=None):
             dist[mod.classify(c, i)] += 1
             if mod.nontrivial(c, i):
                 distinct.add(ni if len(ni) < 200 else hash(ni))
-            if nm != ni:
+            if m in ("MODEL-TIMEOUT", "NOTRUN"):
+                model_timeouts += 1
+            elif nm != ni:
                 disagreements.append((c, m, i))
             if rel_out is not None and mod.normalize(c, rel_out[idx]) != ni:
                 disagreements.append((c, "release:" + rel_out[idx], i))
@@ -169,6 +174,7 @@ def run_property(pid, tier, seed, replay=None):
         "exhaustive": bool(getattr(mod, "EXHAUSTIVE", False)),
         "outcome_distribution": dict(dist),
         "disagreements": len(disagreements),
+        "model_timeouts_not_compared": model_timeouts,
         "oracle_failures": len(oracle_failures),
         "known_findings_seen": list(known_seen.keys()),
         "cannot_exhibit": getattr(mod, "CANNOT_EXHIBIT", []),
